@@ -159,11 +159,13 @@ int main( int argc, char ** argv ) {
                     }
                     break;
                 case 'y':
-                    if( a < ( int )objs.size() && alive[a] && inMgr( *im, objs[a] ) ) {
-                        if( !im->FindFileId( objs[a]->StepFileId() ) ) {
+                    if( a < ( int )objs.size() && alive[a] ) {
+                        if( inMgr( *im, objs[a] ) && !im->FindFileId( objs[a]->StepFileId() ) ) {
                             puts( "CRASH null-node" );
                             skipped = true;
                         } else {
+                            // also for an instance the manager does not hold (nothing must happen then,
+                            // whoever carries the same file id)
                             im->Delete( objs[a] );
                         }
                     } else {
